@@ -128,3 +128,61 @@ def recv_of(tree: ast.expr) -> t.Optional[ast.expr]:
     if isinstance(tree, ast.Call) and isinstance(tree.func, ast.Attribute):
         return tree.func.value
     return None
+
+
+_FACT_CACHE: t.Dict[int, t.Tuple[t.Any, ReachingDefs]] = {}
+
+
+def atoms_at(f: Func, node: ast.AST) -> t.List[t.Tuple[ast.expr, bool]]:
+    """Atomic conditions that hold whenever `node` is evaluated: the dominating branch conditions (with polarity), with
+    local names replaced by what defines them (so a guard on a flag variable counts as the guard on its definition),
+    conjunctions known true / disjunctions known false split, and - for a node inside `a or b` / `a and b` - the
+    operands that short-circuit evaluation has already decided."""
+    from sa.cfg import build
+
+    key = id(f.node)
+    if key not in _FACT_CACHE:
+        g = build(f.node)
+        _FACT_CACHE[key] = (g, ReachingDefs(f, g))
+    g, rd = _FACT_CACHE[key]
+    nid = None
+    for cn in g.nodes:
+        if cn.ast is not None and cn.kind in ("stmt", "cond", "for", "with") and not isinstance(cn.ast, (ast.FunctionDef, ast.AsyncFunctionDef, ast.ClassDef)):
+            payload: t.List[ast.AST] = [cn.ast]
+            if cn.kind == "for":
+                payload = [cn.ast.iter]  # type: ignore[attr-defined]
+            elif cn.kind == "with":
+                payload = [i.context_expr for i in cn.ast.items]  # type: ignore[attr-defined]
+            if any(x is node for p in payload for x in ast.walk(p)):
+                nid = cn.id
+    out: t.List[t.Tuple[ast.expr, bool]] = []
+
+    def split(e: ast.expr, pol: bool) -> None:
+        if isinstance(e, ast.UnaryOp) and isinstance(e.op, ast.Not):
+            split(e.operand, not pol)
+        elif isinstance(e, ast.BoolOp) and ((isinstance(e.op, ast.And) and pol) or (isinstance(e.op, ast.Or) and not pol)):
+            for v in e.values:
+                split(v, pol)
+        elif isinstance(e, ast.Call) and isinstance(e.func, ast.Name) and e.func.id == "bool" and len(e.args) == 1 and not e.keywords:
+            split(e.args[0], pol)
+        else:
+            out.append((e, pol))
+
+    if nid is not None:
+        for c, pol in g.guards_of(nid):
+            split(prov_ast(rd, c, c), pol)
+    # short-circuit context inside one expression
+    for b in body_nodes(f.node):
+        if isinstance(b, ast.BoolOp):
+            for i, v in enumerate(b.values):
+                if any(x is node for x in ast.walk(v)):
+                    for e in b.values[:i]:
+                        split(prov_ast(rd, e, e), isinstance(b.op, ast.And))
+    return out
+
+
+def prov_text(f: Func, e: ast.expr, at: t.Optional[ast.AST] = None) -> str:
+    key = id(f.node)
+    if key not in _FACT_CACHE:
+        atoms_at(f, e)
+    return provenance(_FACT_CACHE[key][1], e, at if at is not None else e)
